@@ -2,12 +2,14 @@
 use crate::run::Builder;
 pub mod mutex;
 pub mod sem;
+pub mod rwlock;
 pub mod flag;
 
 pub fn lookup(name: &str) -> Option<Builder> {
     match name {
         "mutex" => Some(mutex::build),
         "sem" => Some(sem::build),
+        "rwlock" => Some(rwlock::build),
         "flag" => Some(flag::build),
         _ => None,
     }
